@@ -32,7 +32,12 @@ def load_baseline(prop):
 
 
 def matches_known(k, text):
-    return all(s in text for s in k.get("match", []))
+    """all `match` strings occur in the failure text and - when the entry lists `any_of` alternatives (each a list of strings,
+    e.g. the exact (grid, clause, signature) classes seen on the pinned tree) - at least one alternative occurs completely"""
+    if not all(s in text for s in k.get("match", [])):
+        return False
+    alts = k.get("any_of") or []
+    return not alts or any(all(s in text for s in alt) for alt in alts)
 
 
 def finish(prop, tier, seed, prover, native, t0, level_note="", extra_assumptions=(), checker_cmd=""):
